@@ -246,7 +246,16 @@ def check_case(ref, W, fs, s, baseline=None):
             bad("finders-disagree/last-lost-in-some-typed-forms", {k: sorted(v)[:3] for k, v in ans.items()}, "one answer")
         return out, "last-not-at-one-common-position(outside statement)", ans
     names = W.names
-    if ans[names[0]] != ans[names[-1]]:
+
+    def held_by_both(S):
+        # "holding the same entities": an entity whose values a configuration's own patterns refuse cannot be held by it
+        out_ = set()
+        for e in S:
+            t, f = W.ref.natural(e)
+            if not t or all((not W.prs[n].has_path(t)) or W.prs[n].render(t, f) is not None for n in (names[0], names[-1])):
+                out_.add(e)
+        return out_
+    if held_by_both(ans[names[0]]) != held_by_both(ans[names[-1]]):
         bad("local-and-server-differ", [sorted(ans[names[0]] - ans[names[-1]])[:4], sorted(ans[names[-1]] - ans[names[0]])[:4]], "equal")
     if ans[names[0]] != exp_p:
         bad("paths-differ-from-reference" + ("/last" if last else ""), [sorted(ans[names[0]] - exp_p)[:4], sorted(exp_p - ans[names[0]])[:4]], sorted(exp_p)[:4])
